@@ -493,6 +493,7 @@ func cmdCheck(args []string) int {
 			"violating_executions":          a.violExecs,
 			"known_findings_observed":       len(knownSeen),
 			"build_s":                       buildS,
+			"slowest_instances":             slowest(results, 3),
 			"explanation":                   "every counted execution is a run of the real gorums code (instrumented build of /repo's working tree) under the gomc scheduler; states = distinct happens-before fingerprints at choice points, transitions = visible operations executed",
 		},
 		"assumptions": ls.Assumptions,
@@ -645,4 +646,21 @@ func evidenceRoot() string {
 		return filepath.Join(verifDir, ".cache", "alt-evidence", hex.EncodeToString(sum[:6]))
 	}
 	return filepath.Join(verifDir, "evidence")
+}
+
+// slowest lists the n instances that took longest (for load balancing: the wall time of a check is at least
+// that of its slowest instance).
+func slowest(results []*vp.InstResult, n int) []string {
+	var rs []*vp.InstResult
+	for _, r := range results {
+		if r != nil {
+			rs = append(rs, r)
+		}
+	}
+	sort.Slice(rs, func(i, j int) bool { return rs[i].ElapsedMs > rs[j].ElapsedMs })
+	var out []string
+	for i := 0; i < n && i < len(rs); i++ {
+		out = append(out, fmt.Sprintf("%s: %.1fs, %d executions", rs[i].Name, float64(rs[i].ElapsedMs)/1000, rs[i].Execs))
+	}
+	return out
 }
